@@ -78,7 +78,9 @@ func c17Entries(list string) []c17Entry {
 	switch list {
 	case "attesters":
 		mk := func(s string) c17Entry {
-			return c17Entry{s, func(g *cctptypes.GenesisState) { g.AttesterList = append(g.AttesterList, cctptypes.Attester{Attester: s}) }}
+			return c17Entry{s, func(g *cctptypes.GenesisState) {
+				g.AttesterList = append(g.AttesterList, cctptypes.Attester{Attester: s})
+			}}
 		}
 		return []c17Entry{mk(Keys[0].Hex), mk(Keys[0].Hex), mk(Keys[1].Hex), mk(Keys[0].Spell(1))}
 	case "limits":
